@@ -246,6 +246,11 @@ pub struct Inner {
     pub last_op: Vec<(&'static str, u32)>,
     pub ops_done: Vec<usize>,
     pub directive_steps: u64,
+    /// the yield point each thread is waiting at: (file, line, 0 = atomic access, 1 = lock,
+    /// 2 = thread start, 3 = anything else)
+    pub pending: Vec<(&'static str, u32, u8)>,
+    /// per scheduler step: the thread that ran and the yield point it continued from
+    pub trace_sites: Vec<(u16, &'static str, u32, u8)>,
 }
 
 pub struct Sched {
@@ -280,6 +285,8 @@ impl Sched {
                 last_op: vec![("", 0); n],
                 ops_done: vec![0; n],
                 directive_steps: 0,
+                pending: vec![("", 0, 2); n],
+                trace_sites: Vec::new(),
             }),
             cv: Condvar::new(),
         })
@@ -418,6 +425,9 @@ impl Sched {
             Some(t) => {
                 g.current = Some(t);
                 g.trace.push(t as u16);
+                let pd = g.pending[t];
+                g.trace_sites.push((t as u16, pd.0, pd.1, pd.2));
+                g.pending[t] = ("", 0, 3);
             }
             None => {
                 g.current = None;
@@ -589,7 +599,9 @@ impl Hooks for H {
                     })
                 });
                 {
-                    s.inner.lock().unwrap().last_op[*me] = (op.loc.file(), op.loc.line());
+                    let mut g = s.inner.lock().unwrap();
+                    g.last_op[*me] = (op.loc.file(), op.loc.line());
+                    g.pending[*me] = (op.loc.file(), op.loc.line(), if op.cell == flurry::verif::Cell::Ptr { 0 } else { 3 });
                 }
                 if s.yield_as(*me, Status::Ready).is_err() {
                     abort_thread();
@@ -607,6 +619,9 @@ impl Hooks for H {
             Mode::Record => LOG.with(|l| l.borrow_mut().locks.push((loc.file(), loc.line()))),
             Mode::Sched(me, s) => {
                 LOG.with(|l| l.borrow_mut().locks.push((loc.file(), loc.line())));
+                {
+                    s.inner.lock().unwrap().pending[*me] = (loc.file(), loc.line(), 1);
+                }
                 if s.yield_as(*me, Status::WaitLock(lock as *const _ as usize)).is_err() {
                     abort_thread();
                 }
